@@ -126,7 +126,8 @@ Section Spec.
               let p' := aset (cid new) (mkSJ new (j_doc j) (j_files j) (ss_gen s)) (aremove (cid old) p) in
               let s1 := bump (set_cellS (set_proj s (sh_root x) p') (sh_cell x) new) in
               (* every handle of the cell drops its document object *)
-              (map_cell s1 (sh_cell x) (fun y => mkSH (sh_root y) (sh_cell y) (sh_dk y) None), SOk)
+              (* ... and init() of one of them sets _directory_known (bookkeeping: all of them) *)
+              (map_cell s1 (sh_cell x) (fun y => mkSH (sh_root y) (sh_cell y) true None), SOk)
           end
       end.
 
@@ -185,7 +186,12 @@ Section Spec.
         if created out then
           let x := hS s h in
           let s1 := add_sessS (add_cellS s (cellS s (sh_cell x))) (sh_root x) in
-          (add_hS s1 (mkSH (sh_root x) (length (ss_cells s)) (sh_dk x) (sh_doc x)), SAny)
+          let s2 := add_hS s1 (mkSH (sh_root x) (length (ss_cells s)) (sh_dk x) (sh_doc x)) in
+          (* the copy of a cell that still lists a moved handle lists (a copy of) it too *)
+          (if existsb (Nat.eqb (sh_cell x)) (ss_orph s) then
+             mkSS (ss_projs s2) (ss_sess s2) (ss_hs s2) (ss_cells s2) (ss_gen s2) (ss_planted s2)
+                  (length (ss_cells s) :: ss_orph s2)
+           else s2, SAny)
         else (s, SAny)
     | OEdit h p a =>
         match edit_sp p a (cellS s (sh_cell (hS s h))) with
